@@ -16,7 +16,7 @@ CLAIMED = {
          "frequencies. Template programs with tunable facts, tunable ADs with/without bodies and fixed heads, hidden and observed atoms; complete and partial datasets sampled from "
          "a reference parameterisation. The unchanged tree violates several clauses on programs with multi-head ADs (known findings F10, F24-F27); fact-only programs and every "
          "unlisted crash site stay fully checked. Exploration level.",
-    design_ref="DESIGN.md §5 C24", quick_t=900, thorough_t=3600),
+    design_ref="DESIGN.md §5 C24", quick_t=1800, thorough_t=5400),
  "C22": dict(
     technique="deterministic simulation: PRNG seam with recording uniform draws (seeded, adversarial values), engine reuse history, virtual alarm inside sample()/estimate(); oracle = independent possible-world enumerator + Hoeffding bound",
     text="Inside problog.tasks.sample the PRNG is the simulator's: every uniform draw records the comparison made with it, so sequential annotated-disjunction sampling is checked "
@@ -24,35 +24,35 @@ CLAIMED = {
          "world satisfying the evidence and every rejected attempt must violate it (all ground atoms of the cone are queried, so a sample fixes a world), an attempt replayed on a fresh "
          "engine from the captured PRNG state must be identical (engine reuse leaks nothing), frequencies and estimate() must lie within the Hoeffding radius (false alarm < 1e-9 per query) "
          "of the exact conditional probability, and samples yielded before a virtual-alarm interrupt must still be valid. Both propagate_evidence settings. Exploration level.",
-    design_ref="DESIGN.md §5 C22", quick_t=900, thorough_t=3600),
+    design_ref="DESIGN.md §5 C22", quick_t=1800, thorough_t=5400),
  "C23": dict(
     technique="deterministic simulation: virtual alarm (line-count clock via sys.settrace) interrupting the anytime k-best evaluator at seeded simulated times; oracle = independent possible-world enumerator",
     text="The interval answer of the k-best evaluator exists only under interruption, so a simulated clock (count of source lines executed in problog/) raises the same "
          "KeyboardInterrupt that util.start_timer's SIGALRM would, at seeded times drawn uniformly over the run and biased to just after Border.update / solver calls / "
          "blocking-clause insertion. Every returned value or interval is judged against exact probabilities from a reference enumerator that shares no code with ProbLog; "
          "plus per program a fault-free run (must be tight) and an explain run (per-query proof probabilities must sum to the exact probability). Real maxsatz runs. Exploration level.",
-    design_ref="DESIGN.md §5 C23", quick_t=900, thorough_t=3600),
+    design_ref="DESIGN.md §5 C23", quick_t=1800, thorough_t=5400),
  "C11": dict(
     technique="deterministic simulation: seeded histories of builder calls vs symbolic model with late-bound cells, truth tables after every call, invalid-call faults, ddmin replay",
     text="Seeded histories of LogicFormula builder calls (add_atom incl. deterministic and AD-group atoms, add_and, add_or readonly/mutable, add_disjunct incl. positive "
          "cycles, negate/add_not, add_name) under swarm-chosen options (auto_compact, keep_order, keep_duplicates, keep_all, avoid_name_clash, max_arity). Every key ever "
          "returned is re-checked after every call: its truth table over all assignments of <= 4 atoms (alternating fixpoint for cyclic nodes) must equal that of the model "
          "expression; invalid updates must raise ValueError and change nothing. Exploration level (bounded atoms and history length, sampled histories).",
-    design_ref="DESIGN.md §5 C11", quick_t=600, thorough_t=3000),
+    design_ref="DESIGN.md §5 C11", quick_t=1200, thorough_t=5400),
  "C29": dict(
     technique="deterministic simulation: seeded histories on a tree of ClauseDB extensions (extend / add / query), from-scratch refinement oracle, failing and alarm-interrupted adds as faults, ddmin replay",
     text="A generated program is split into a prepared base and extra clauses; seeded histories extend the base (also extensions of extensions), add the extra clauses "
          "to leaves (new predicates, predicates defined or only called in ancestors, probabilistic clauses and annotated disjunctions) and query every database of the tree "
          "through reused engines; each answer is compared with a database prepared from scratch from the clauses on that database's root path, so both equivalence with "
          "the union and isolation of the parent are decided. Faults: adds that raise and adds/queries interrupted by the virtual alarm (that child is discarded). Exploration level.",
-    design_ref="DESIGN.md §5 C29", quick_t=600, thorough_t=3600),
+    design_ref="DESIGN.md §5 C29", quick_t=1500, thorough_t=5400),
  "C08": dict(
     technique="deterministic simulation: seeded histories of ground/query/ground_all on shared database, targets and engines; fresh-run refinement oracle; failing and alarm-interrupted queries as faults; ddmin replay",
     text="Seeded operation histories (ground query / ground evidence / engine.query / ground_all / new target / new engine) run against one shared prepared ClauseDB, "
          "up to three targets with their tabling caches and up to three engines; after every operation the touched target is evaluated and compared query by query with "
          "fresh single-query runs under the same evidence. A separate fault configuration injects queries that raise after doing real work and groundings interrupted by the "
          "virtual alarm (line-count clock); the model then discards that engine and target while the database stays shared. Exploration level.",
-    design_ref="DESIGN.md §5 C08", quick_t=600, thorough_t=3600),
+    design_ref="DESIGN.md §5 C08", quick_t=1500, thorough_t=5400),
  "C04": dict(
     technique="deterministic simulation: documented unbuffered / rc-first / seeded random-order message queues (existing init_message_stack seam), differential oracle vs default engine, scripted replay",
     text="Each program is evaluated by the real pipeline with StackBasedEngine(unbuffered=True), (unbuffered=True, rc_first=True) and the RandomOrderEngine "
@@ -60,21 +60,21 @@ CLAIMED = {
          "accept/reject) must equal the default engine's. The unchanged tree violates this property in several distinct ways (known findings F3-F5, F15-F17, "
          "identified by call site, engine side, feature tags or corpus file); everything outside those signatures - in particular any probability difference not "
          "matching F17 - is reported. Exploration level.",
-    design_ref="DESIGN.md §5 C04", quick_t=600, thorough_t=3600),
+    design_ref="DESIGN.md §5 C04", quick_t=1500, thorough_t=5400),
  "C03": dict(
     technique="deterministic simulation: seeded scheduler permuting the engine's sibling message batches (reorder faults), differential oracle vs identity schedule, ddmin replay",
     text="The real buffered engine is run under a simulator-owned scheduler (guarded hook in MessageFIFO) that permutes every batch of sibling "
          "'e' messages according to a seeded policy (uniform, reverse, rotate, static per node, one-shot); the canonical outcome (query instances, "
          "probabilities, error class) must equal the identity-schedule outcome of the same program. Corpus test/*.pl plus seeded generated stratified programs; "
          "violations are minimised (program and decision log) and replayed in a fresh process. Exploration: schedules are sampled, not enumerated.",
-    design_ref="DESIGN.md §5 C03", quick_t=600, thorough_t=3600),
+    design_ref="DESIGN.md §5 C03", quick_t=1500, thorough_t=5400),
  "C34": dict(
     technique="deterministic simulation: seeded operation histories vs reference models, invalid-op faults, ddmin replay",
     text="Seeded histories (one integer = one history) of OrderedSet/UHeap/BitVector operations over several instances, compared "
          "op by op with list/dict/set reference models; invalid operations are the injected faults and must raise without changing state. "
          "Exploration level: a container API has a small state space per history, so tens of thousands of short swarm-configured histories reach "
          "every operator with operands of different shapes (block counts, key ties, aliasing).",
-    design_ref="DESIGN.md §5 C34", quick_t=300, thorough_t=1800),
+    design_ref="DESIGN.md §5 C34", quick_t=900, thorough_t=3600),
 }
 
 NA_PENDING = {}
